@@ -1,6 +1,6 @@
 INIT Init
 NEXT Next
-CONSTANTS W8 = {1, 2, 31, 32, 33, 63, 64, 65, 96, 127, 128, 129, 191, 192, 193, 255, 256, 257, 320, 400, 448, 464, 475, 476, 477, 490, 499, 500}
-          W16 = {1, 2, 31, 32, 33, 63, 64, 65, 127, 128, 129, 255, 256, 257, 511, 512, 513, 700, 895, 896, 897, 960, 976, 987, 988, 989, 1000, 1011, 1012}
+CONSTANTS W8 = {1, 2, 31, 32, 33, 63, 64, 65, 96, 127, 128, 129, 191, 192, 193, 255, 256, 257, 320, 400, 438, 448, 464, 475, 476, 477, 490, 499, 500}
+          W16 = {1, 2, 31, 32, 33, 63, 64, 65, 127, 128, 129, 255, 256, 257, 511, 512, 513, 700, 895, 896, 897, 950, 960, 976, 987, 988, 989, 1000, 1011, 1012}
 INVARIANT Emit
 CHECK_DEADLOCK FALSE
